@@ -340,6 +340,9 @@ META = (META[0] + ' TRAITSORD (the ordering operations of the view order charact
 META = (META[0] + ' CHARCAST (the generic char_traits convert a character to a fixed narrow type only under is_same_v<char_type, char>).', META[1])
 
 
+META = (META[0] + ' EMPTYQ (all_of / none_of answer true and any_of false on an early return for the empty range).', META[1])
+
+
 def run(chk, tier):
     db = D.load("checks")
     from ..rules import params as _PR
@@ -358,6 +361,9 @@ def run(chk, tier):
     from ..rules import extra10 as _X10c
     if _X10c.char_cast_area(chk, db, ('_string/char_traits.hpp',)) < 2:      # CHARCAST
         chk.analysis_broken('CHARCAST: fewer than 2 narrowing conversions of a character found in char_traits (floor 2)')
+    from ..rules import extra12 as _X12
+    if _X12.empty_quantifier_area(chk, db, ['_algorithm/none_of', '_algorithm/all_of', '_algorithm/any_of']) < 1:      # EMPTYQ: find_last_not_of rests on none_of
+        chk.analysis_broken('EMPTYQ: none_of not found (floor 1)')
     if _EX.check_first_read(chk, db) < 4:      # FIRSTREAD: the first character a positional search looks at
         chk.analysis_broken("FIRSTREAD: fewer than 4 searches that scan by themselves (floor 4)")
     if _EX.check_rwindow(chk, db) < 1:      # both rfind members became pure delegations: nothing to judge here
